@@ -101,33 +101,33 @@ def gen_history_live(rng, n_ops):
     ops = []
     universe = [b"a", b"b", b"c"]
 
-    def phase(n, verify):
+    def phase(n):
         for _ in range(n):
             r = rng.below(100)
-            if r < 40:
+            if r < 42:
                 k = rng.choice(universe)
                 ops.append(["w", k.hex(), None] if rng.chance(1, 4) else ["w", k.hex(), rng.choice([b"", b"y" * 40]).hex()])
-            elif r < 58:
+            elif r < 62:
                 ops.append(["flush"])
-            elif r < 84 or not verify:
+            elif r < 92:
                 ops.append(["compact", rng.choice([2, 8, 20, 40])])
-            elif r < 88:
+            elif r < 96:
                 ops.append(["take", rng.below(2), "snap"])
-            elif r < 91:
-                ops.append(["drop", rng.below(2)])
-            elif r < 98:
-                ops.append(["verify"])
             else:
-                ops.append(["vkill", rng.range(1, 4)])
+                ops.append(["drop", rng.below(2)])
 
-    phase(max(20, n_ops // 3), False)
+    phase(max(20, n_ops // 3))
     left = n_ops - len(ops)
     while left > 0:
+        # two numbered fragments; the older one holds the history so far and is not verified yet
         ops.append(["reopen"])
         ops.append(["reopen"])
-        n = min(left, rng.choice([25, 40, 60]))
-        phase(n, True)
+        n = min(left, rng.choice([20, 35, 50]))
+        phase(n)
         ops.append(["compact", 40])
+        # the verifier reads the old fragment while what the store did since is in the live MANIFEST
+        if rng.chance(1, 4):
+            ops.append(["vkill", rng.range(1, 4)])
         ops.append(["verify"])
         left -= n
     return ops, [k.hex() for k in universe]
